@@ -202,6 +202,9 @@ func checkLocation(o drv.Outcome, files map[string]string, rootName string) (str
 	return "", ""
 }
 
+// faultTapHook runs the fault injector of C11 with a tap (set in the verif build, c11.go).
+var faultTapHook func(c *fw.Ctx, tap func(label string, p drv.Project))
+
 func runC02(c *fw.Ctx) {
 	// faults found only when a schema is loaded (incompatible rule, unknown rule, duplicate key), in
 	// every schema-bearing directive of every pool document (so also in a type reached through a
@@ -251,6 +254,23 @@ func runC02(c *fw.Ctx) {
 			}
 		}
 	})
+
+	// every single-fault project of C11 / C02 (every fault kind at every place of every pool
+	// document, delivered directly, through PASTE and through INCLUDE) written with CRLF and with
+	// CR line ends: index, line, quote and trace still agree with the files as they are written
+	// (the documents hold multi-line descriptions, bodies and comments before the fault)
+	if faultTapHook != nil {
+		faultTapHook(c, func(label string, p drv.Project) {
+			for _, nl := range []string{"\r\n", "\r"} {
+				files := map[string]string{}
+				for k, v := range p.Files {
+					files[k] = strings.ReplaceAll(v, "\n", nl)
+				}
+				sc := streamCase{stream: "faults-line-ends", label: fmt.Sprintf("%s nl=%q", label, nl), proj: drv.Project{Root: p.Root, Files: files}, opt: drv.Options{FixedSeed: true}}
+				judge("faults-line-ends", sc.label, sc)
+			}
+		})
+	}
 
 	// dedicated include structures x faults
 	faults := map[string]string{
